@@ -238,6 +238,9 @@ def run(ctx, rep):
     flag_decode_rules(facts, rep)
     raw_rules(facts, rep)
     from rules.C02 import narrow_rules
+    from engine.codec import Codec
+    from rules.shared_codec import reader_table
+    reader_table(facts, rep, "C19-CODEC", facts.one(r"^read::central_header_to_zip_file$"), "CDH", ctx.spec("appnote.json"), Codec(facts), adt_re=r"ZipFileData")   # name, extra, comment are read in record order
     from rules.C02 import limit_rules
     limit_rules(facts, rep)            # reported as C19/C02-LIMIT: every name/comment the format can hold is accepted, nothing longer is
     narrow_rules(ctx, facts, rep)      # reported as C19/C02-NARROW: the stored name is the given UTF-8 bytes -- its length field is not a wrapped cast
